@@ -14,6 +14,16 @@ fn trap_name(t: DecoderTrap) -> &'static str {
 }
 
 fn sample_bytes(rng: &mut Rng, enc: &str) -> Vec<u8> {
+    if enc == "iso-2022-jp" && rng.chance(1, 2) {
+        // 7-bit stateful codec: ASCII-only byte strings with (possibly malformed) escape sequences
+        let pieces: &[&[u8]] = &[b"\x1b$B", b"\x1b(B", b"\x1b(J", b"\x1b$@", b"\x1b", b"\x0e", b"\x0f", b"$3$s", b"$3", b"abc ", b"!!", b"\x1b(I", b"1", b"\x1b$"];
+        let mut b = vec![];
+        for _ in 0..rng.range(1, 6) {
+            let piece: &[u8] = *rng.pick(pieces);
+            b.extend_from_slice(piece);
+        }
+        return b;
+    }
     match rng.below(6) {
         0 => {
             let k = rng.range(0, 40);
@@ -67,37 +77,50 @@ pub fn run(thorough: bool, seed: u64, _replay: Option<String>) -> Report {
     let mut drv = Driver::spawn();
     let mut rng = Rng::new(seed);
     let sup: Vec<&str> = supported().into_iter().filter(|n| encoding_from_whatwg_label(n).is_some()).collect();
-    let n = if thorough { 40_000 } else { 4_000 };
+    let n = if thorough { 20_000 } else { 2_400 };
     let traps = [DecoderTrap::Strict, DecoderTrap::Ignore, DecoderTrap::Replace];
     // ---- (a) helper == codec for every resolvable encoding, trap, test-only flag
     for i in 0..n {
         let enc = sup[i % sup.len()];
         let b = sample_bytes(&mut rng, enc);
-        let trap = traps[rng.below(3)];
-        let only_test = rng.chance(1, 3);
         let codec = encoding_from_whatwg_label(enc).unwrap();
-        let want = codec.decode(&b, trap).ok();
-        let got = std::panic::catch_unwind(|| decode(&b, enc, trap, only_test, false));
-        rep.evaluations += 1;
-        rep.oracle_checked += 1;
-        rep.nontrivial(fp(&b, &format!("{}{}{}", enc, trap_name(trap), only_test)));
-        rep.count(&format!("helper:{}:{}", trap_name(trap), if want.is_some() { "ok" } else { "err" }));
-        match got {
-            Err(_) => rep.fail("oracle", "C17:helper-panicked", &format!("{} {}", enc, trap_name(trap)), &b, None, enc),
-            Ok(got) => {
-                let got = got.ok();
-                let expect = if only_test { want.as_ref().map(|_| String::new()) } else { want.clone() };
-                if got != expect {
-                    rep.fail(
-                        "oracle",
-                        if only_test { "C17:test-only-mode-differs" } else { "C17:helper-differs-from-codec" },
-                        &format!("{} trap={} only_test={}: helper {:?} codec {:?}", enc, trap_name(trap), only_test, got.map(|s| s.chars().take(30).collect::<String>()), expect.map(|s| s.chars().take(30).collect::<String>())),
-                        &b,
-                        None,
-                        enc,
-                    );
+        let mut trap = traps[0];
+        let mut only_test = false;
+        // every sample in all 3 error modes x test-only on/off
+        for (ti, t) in traps.iter().enumerate() {
+            for ot in [false, true] {
+                trap = *t;
+                only_test = ot;
+                let want = codec.decode(&b, trap).ok();
+                let got = std::panic::catch_unwind(|| decode(&b, enc, trap, only_test, false));
+                rep.evaluations += 1;
+                rep.oracle_checked += 1;
+                rep.nontrivial(fp(&b, &format!("{}{}{}", enc, trap_name(trap), only_test)));
+                if ti == 0 && !ot {
+                    rep.count(&format!("helper:strict:{}", if want.is_some() { "ok" } else { "err" }));
+                }
+                match got {
+                    Err(_) => rep.fail("oracle", "C17:helper-panicked", &format!("{} {}", enc, trap_name(trap)), &b, None, enc),
+                    Ok(got) => {
+                        let got = got.ok();
+                        let expect = if only_test { want.as_ref().map(|_| String::new()) } else { want.clone() };
+                        if got != expect {
+                            rep.fail(
+                                "oracle",
+                                if only_test { "C17:test-only-mode-differs" } else { "C17:helper-differs-from-codec" },
+                                &format!("{} trap={} only_test={}: helper {:?} codec {:?}", enc, trap_name(trap), only_test, got.map(|s| s.chars().take(30).collect::<String>()), expect.map(|s| s.chars().take(30).collect::<String>())),
+                                &b,
+                                None,
+                                enc,
+                            );
+                        }
+                    }
                 }
             }
+        }
+        if i % 3 != 0 {
+            trap = traps[rng.below(3)];
+            only_test = rng.chance(1, 2);
         }
         // T3: the Lean model of the helper for the modelled codecs
         if i % 2 == 0 {
